@@ -66,6 +66,37 @@ partial def toSexp : Val → Sexp
   | record n fs => tagged "rec" (.str n :: fs.map (fun kv => Sexp.list [.str kv.1, toSexp kv.2]))
   | variant en v p => tagged "variant" [.str en, .str v, toSexp p]
 
+/-- inverse of `toSexp` for the constructors that occur in oracle rows (values of user functions
+    evaluated by the harness) -/
+partial def ofSexp? : Sexp → Option Val
+  | .atom "unit" => Option.some Val.unit
+  | .list [.atom "bool", b] => do pure (bool (← b.asBool?))
+  | .list [.atom "int", i] => do pure (int (← i.asInt?))
+  | .list [.atom "str", .str s] => Option.some (Val.str s)
+  | .list [.atom "char", n] => do pure (char (Char.ofNat (← n.asNat?)))
+  | .list [.atom "float", n] => do pure (float (← n.asNat?))
+  | .atom "none" => Option.some Val.none
+  | .list [.atom "some", v] => do pure (Val.some (← ofSexp? v))
+  | .list [.atom "ptr", v] => do pure (ptr (← ofSexp? v))
+  | .atom "inherit" => Option.some Val.inherit
+  | .list [.atom "explicit", v] => do pure (explicit (← ofSexp? v))
+  | .list [.atom "spanned", v, sp] => do pure (spanned (← ofSexp? v) (← Codec.spanOf? sp))
+  | .list [.atom "flag", sp] => do pure (flag (← Codec.spanOf? sp))
+  | .list [.atom "toks", .str t] => Option.some (Val.toks t)
+  | .list (.atom "list" :: vs) => do pure (list (← vs.mapM ofSexp?))
+  | .list (.atom "map" :: rows) => do
+      let kvs ← rows.mapM (fun r => match r with
+        | .list [.str k, v] => do pure (k, ← ofSexp? v)
+        | _ => Option.none)
+      pure (map kvs)
+  | .list (.atom "rec" :: .str n :: rows) => do
+      let kvs ← rows.mapM (fun r => match r with
+        | .list [.str k, v] => do pure (k, ← ofSexp? v)
+        | _ => Option.none)
+      pure (record n kvs)
+  | .list [.atom "variant", .str en, .str v, p] => do pure (variant en v (← ofSexp? p))
+  | _ => Option.none
+
 end Val
 
 /-- canonical answer of a conversion -/
